@@ -12,12 +12,15 @@ RULE = (
     "cases = (p positional + k keyword argument futures + the function future, outcome per input from {value, exception, "
     "cancelled, never}, the function echoes (args, sorted kwargs) or raises, completion events over 1-3 threads, tape). "
     "Enumerated: every (p,k) with p+k<=4 x every completion order of all p+k+1 inputs, plus a failure at every position x every order "
-    "(p+k<=3); Hypothesis: up to 5 positional + 4 keyword arguments completed concurrently with tapes. Oracle: result == fn(*args, **kwargs) "
+    "(p+k<=3); 8..64 arguments (function last, first argument last, in order, reversed, rotations; a failing argument in the middle; a raising function); Hypothesis: up to 5 positional + 4 keyword arguments completed concurrently with tapes. Oracle: result == fn(*args, **kwargs) "
     "of the plain values; fn called exactly once and only after the last input's completing call began; failing input or fn => that exception. "
     "Non-trivial = >=2 argument futures completing out of argument order or concurrently, or a failure. Distinct = digest of the case."
 )
 ASSUMPTIONS = ["when several inputs fail, the output may carry any one of their exceptions (the statement fixes none)",
                "a never-completing input is only combined with otherwise successful inputs"]
+
+
+KNOWN_RECURSION = "C16:recursion-limit:more-than-55-arguments-with-the-function-or-first-argument-resolving-last"
 
 
 def expr_of(case):
@@ -75,7 +78,7 @@ def evaluate(case):
             exp = ("e", ("c", "a0.fn", 0))
         else:
             exp = ("v", (tuple(world._thaw(value_of(1 + i)) for i in range(p)),
-                         tuple(("k%d" % j, world._thaw(value_of(1 + p + j))) for j in range(k))))
+                         tuple(sorted(("k%d" % j, world._thaw(value_of(1 + p + j))) for j in range(k)))))  # (the echo sorts by name)
         info["expected"] = [exp]
         if exp[0] != got[0] or world.jsonable(exp[1]) != world.jsonable(got[1]):
             bad("wrong-outcome:%s-for-%s" % (got[0], exp[0]), expected=exp, got=got)
@@ -91,6 +94,14 @@ def evaluate(case):
         pass
     if calls and any(outcomes.get(i, ("n",))[0] != "v" for i in range(1, n)):
         bad("fn-called-although-an-argument-did-not-resolve")
+    # known finding (recorded in known_findings.json): f_apply curries its arguments one by one, and the chain of map / flat_map
+    # futures it builds resolves recursively - about 15 interpreter frames per argument - when the function future or the first
+    # argument is the LAST input to resolve.  With more than ~55 arguments that exceeds the default recursion limit: the output
+    # fails with RecursionError or, where a callback wrapper swallows it, stays pending.  Recognised by this exact shape only.
+    evs = [e for t in case["threads"] for e in t if e[0] == "c"]
+    if viols and p + k >= 56 and len(case["threads"]) == 1 and not failing and not missing and not case.get("fn_raises") \
+            and evs and evs[-1][1] in (0, 1) and (got == ("pending",) or "RecursionError" in repr(got)):
+        viols[:] = [{"signature": KNOWN_RECURSION, "detail": {"p": p, "k": k, "last_input": evs[-1][1], "got": got[0]}}]
     return viols, info
 
 
@@ -152,6 +163,20 @@ def enum_cases(part, parts):
                         yield {"p": p, "k": k, "predone": pre, "threads": [[ev_for(i, "V") for i in order if not mask >> i & 1]], "tape": []}
 
 
+def arity_cases():
+    """Many arguments: every input position, three completion orders (function last / first argument last / in order) and rotations."""
+    for p, k in ((8, 0), (0, 8), (12, 6), (16, 0), (24, 0), (24, 8), (32, 0), (40, 0), (36, 8), (56, 0), (60, 0), (64, 0), (40, 24)):
+        n = 1 + p + k
+        orders = [list(range(1, n)) + [0], [0] + list(range(2, n)) + [1], list(range(n)), list(range(n - 1, -1, -1))]
+        if n <= 45:
+            orders += [list(range(r, n)) + list(range(r)) for r in (n // 3, n // 2)]
+        for order in orders:
+            yield {"p": p, "k": k, "threads": [[ev_for(i, "V") for i in order]], "tape": []}
+        if n <= 45:
+            yield {"p": p, "k": k, "threads": [[ev_for(i, "E" if i == n // 2 else "V") for i in orders[0]]], "tape": []}
+            yield {"p": p, "k": k, "fn_raises": True, "threads": [[ev_for(i, "V", True) for i in orders[1]]], "tape": []}
+
+
 def conc_catalog():
     """Function future and argument futures completed by different threads at the same instant."""
     out = {}
@@ -166,6 +191,7 @@ def conc_catalog():
 def shards(tier, seed):
     parts = 8
     specs = [{"mode": "enum", "part": i, "parts": parts} for i in range(parts)]
+    specs.append({"mode": "arity"})
     cc = sorted(conc_catalog())
     for i in range(0, len(cc), 1):
         specs.append({"mode": "conc", "entries": cc[i:i + 1], "double": tier == "thorough"})
@@ -207,6 +233,13 @@ def run_shard(spec, ctx):
             kk += 1
         ctx.exhaustive.append({"domain": "f_apply: (p,k) with p+k<=4 x all completion orders; failure/cancel/never at every position (p+k<=3); pre-done masks (p+k<=2) (part %d/%d)" % (spec["part"], spec["parts"]),
                                "size": kk, "complete": True})
+    elif spec["mode"] == "arity":
+        kk = 0
+        for case in arity_cases():
+            viols, info = evaluate(case)
+            account(ctx, case, viols, info, ["arity:%s" % ("<=45" if case["p"] + case["k"] <= 45 else ">=56")])
+            kk += 1
+        ctx.exhaustive.append({"domain": "f_apply with 8..64 arguments: function last / first argument last / in order / reversed / rotations", "size": kk, "complete": True})
     elif spec["mode"] == "conc":
         cat = conc_catalog()
         for name in spec["entries"]:
